@@ -153,7 +153,7 @@ def cmd_check(args):
         # failures of the family that known_findings.json lists (matched by their own pattern, one obligation each)
         for kid in replayers.known_hits.pop(bf['family'], []):
             obligations.append({'id': kid, 'slot': None, 'props': [prop], 'status': 'failed', 'kind': 'bounded-replay',
-                                'message': 'known finding reproduced by the bounded check %s' % bf['family'], 'src': None, 'unit': 'bounded'})
+                                'message': 'known finding reproduced by the bounded check %s' % bf['family'], 'src': None, 'unit': 'bounded', 'count': 0})
         if w:
             obligations.append({'id': 'bounded::%s' % bf['family'], 'slot': None, 'props': [prop], 'status': 'failed', 'kind': 'bounded-replay',
                                 'message': 'bounded check (stand-in for %s, %s) found a failing input on the real code: %s' % (bf['functions'], bf['bound'], w.get('why')),
